@@ -828,6 +828,32 @@ func (c *c13Ctx) deleteSite(e *Effect) {
 		r.Undecided("C13.R3", cGuard, pos, sf, "path cap exceeded or Delete not reachable from the loop body")
 		return
 	}
+	// facts established before the loop is entered (e.g. `if current == nil { return }` hoisted out of
+	// the loop): the must-facts on every edge that enters the header from outside the loop. They are about
+	// values defined before the loop, which no iteration can change, so they hold on every iteration path.
+	var pre factSet
+	for _, pb := range H.Preds {
+		if loop[pb] {
+			continue
+		}
+		fs := ff.FactsAtEdge(pb, H)
+		if pre == nil {
+			pre = fs
+			continue
+		}
+		for kk := range pre {
+			if _, ok := fs[kk]; !ok {
+				delete(pre, kk)
+			}
+		}
+	}
+	for _, p := range paths {
+		for kk, f := range pre {
+			if _, ok := p.Facts[kk]; !ok {
+				p.Facts[kk] = f
+			}
+		}
+	}
 	var zeroPred *ssa.Function
 	okG, whyG := true, ""
 	for _, p := range paths {
